@@ -6,3 +6,22 @@ def with_msg(hs: "seq[obj]", m: "obj", k: int) -> "seq[tuple[obj,obj]]":
     if k <= 0:
         return ()
     return with_msg(hs, m, k - 1) + ((hs[k - 1], m),)
+
+
+def stopped(A: "seq[obj]", ap: "obj", sp: "obj", k: int) -> bool:
+    """Among the first k arrivals there is one satisfying the stop predicate (None = every message stops)."""
+    if k <= 0:
+        return False
+    return stopped(A, ap, sp, k - 1) or pred_or_none(sp, A[k - 1])
+
+
+def coll(A: "seq[obj]", ap: "obj", sp: "obj", k: int) -> "seq[obj]":
+    """What a request-response call has collected after k arrivals of its response types: the accepted ones, in
+    arrival order, up to and including the first arrival that satisfies the stop predicate."""
+    if k <= 0:
+        return ()
+    if stopped(A, ap, sp, k - 1):
+        return coll(A, ap, sp, k - 1)
+    if pred_or_none(ap, A[k - 1]):
+        return coll(A, ap, sp, k - 1) + (A[k - 1],)
+    return coll(A, ap, sp, k - 1)
